@@ -111,6 +111,57 @@ int main(int argc, char **argv) {
                                              : aws_hex_decode;
             const char *ev = vh_is("B64ENC") ? "B64Enc" : vh_is("B64DEC") ? "B64Dec" : vh_is("HEXENC") ? "HexEnc" : "HexDec";
             buffer_op(ev, fn, (size_t)vh_argu(2), (size_t)vh_argu(3), (uint8_t)vh_argu(4));
+        } else if (vh_is("B64ENCAT")) {
+            /* B64ENCAT <input> <k> <d> <slack>: the appending encoder on a buffer that already holds k * 2^32 + d bytes
+             * (address space only: the mapping is touched at its start, around the append position and nowhere else).
+             * The event describes the window that starts 8 bytes in front of the append position the way B64Enc
+             * describes a whole buffer; low = 1 iff the first page of the buffer - where a write through an offset
+             * truncated to 32 bits lands, d < 4096 - still holds what was put there. */
+            load_input(vh_args(1));
+            size_t at = ((size_t)vh_argu(2) << 32) + (size_t)vh_argu(3);
+            long long slack = vh_argi(4);
+            size_t need = 4 * ((in_len + 2) / 3), P = 8;
+            size_t cap = (size_t)((long long)(at + need) + slack);
+            size_t maplen = (cap > at + need ? cap : at + need) + 4096;
+            uint8_t *map = mmap(NULL, maplen, PROT_READ | PROT_WRITE, MAP_PRIVATE | MAP_ANONYMOUS | MAP_NORESERVE, -1, 0);
+            if (map == MAP_FAILED || at < 8192) {
+                return 3;
+            }
+            memset(map, 0x77, 4096);
+            size_t B = at - P, W = cap - B;
+            uint8_t *before = malloc(W + 64);
+            for (size_t i = 0; i < W; ++i) {
+                map[B + i] = i < P ? (uint8_t)(0x50 + i) : 0xC3;
+            }
+            memcpy(before, map + B, W);
+            struct aws_byte_cursor cur = aws_byte_cursor_from_array(in_buf, in_len);
+            struct aws_byte_buf out = aws_byte_buf_from_empty_array(map, cap);
+            out.len = at;
+            int rc = aws_base64_encode(&cur, &out);
+            size_t wrote = 0;
+            for (size_t i = 0; i < W; ++i) {
+                if (map[B + i] != before[i]) {
+                    wrote = i + 1;
+                }
+            }
+            int low = 1;
+            for (size_t i = 0; i < 4096; ++i) {
+                low &= map[i] == 0x77;
+            }
+            long long wlen = out.len >= B ? (long long)(out.len - B) : -1;
+            vh_begin("B64EncAt");
+            vh_bytes("inp", in_buf, in_len);
+            vh_int("cap", (long long)W);
+            vh_bytes("pre", before, P);
+            vh_int("canary", 0xC3);
+            vh_rc(rc);
+            vh_int("len", wlen > 1000000 ? 1000000 : wlen);
+            vh_bytes("out", map + B, wlen < 0 ? 0 : ((size_t)wlen < W ? (size_t)wlen : W));
+            vh_int("wrote", (long long)wrote);
+            vh_int("low", low);
+            vh_end();
+            free(before);
+            munmap(map, maplen);
         } else if (vh_is("HEXAPP")) {
             load_input(vh_args(1));
             size_t cap = (size_t)vh_argu(2), prelen = (size_t)vh_argu(3);
